@@ -546,3 +546,34 @@ def run(chk):
         "no std::bad_alloc inside the pool's own containers",
         "the iteration order of supplied_ in the destructor is modelled as one fixed order; the deleter calls of one destructor are compared as a set",
     ]
+
+
+def replay(path):
+    """Re-run the lines of a replay file on a fresh build of the working tree:
+    implementation, model and the independent monitor."""
+    import json
+    from vlib import lean
+    obj = json.load(open(path))
+    rp = obj.get("replay", {})
+    print("replay of C18: %s" % obj.get("what", "")[:300])
+    if "lines" not in rp:
+        print(json.dumps(rp, indent=1)[:3000])
+        return 0
+    exe = build.build_harness("h_pool")
+    lean.lake(["build", "drv_pool"])
+    lines = rp["lines"]
+    impl, reports = vrun.run_impl(exe, lines, stateful=True)
+    model = vrun.run_model("pool", lines)
+    mon = {}
+    for (i, cls, msg) in monitor_stream(lines, impl):
+        mon.setdefault(i, []).append("%s: %s" % (cls, msg))
+    bad = 0
+    for i, (l, a, b) in enumerate(zip(lines, impl, model)):
+        same = vrun.same(a, b)
+        bad += (not same) + len(mon.get(i, []))
+        print("%s %s\n    impl : %s\n    model: %s" % (" " if same else "!", l, a, b))
+        for m in mon.get(i, []):
+            print("    PROPERTY VIOLATED — " + m)
+    for r in reports:
+        print("crash report:", r["kind"], (r.get("stderr") or "")[-600:])
+    return 1 if bad or reports else 0
